@@ -173,6 +173,18 @@ CLAIMED = {
         note="partd is real but not fault-injected; element type is small ints (tuples/dicts inside pipelines); "
              "tasks atomic under E1.",
         ref="DESIGN.md §4 C48"),
+    "C12": dict(
+        technique="deterministic simulation (E2): baton-passed threads pre-empted by sys.settrace at lines of "
+                  "dask/tokenize.py and at the simulated tokenize_lock; fresh interpreters with other hash seeds",
+        text="PARTIAL: decides that a token does not depend on what other threads tokenize concurrently, on "
+             "what was tokenized (or failed to tokenize) before in the process, on deep copies / pickle round "
+             "trips, or (plain data) on the interpreter's hash seed. Every token produced by 2-4 pre-empted "
+             "simulated threads is compared with the token of the same value in the quiescent interpreter; "
+             "_SEEN and the ContextVar must be restored. Collision-freeness ('different values get different "
+             "tokens') is input search and is NOT addressed by this technique.",
+        note="tokenize_lock is replaced by a simulated re-entrant lock; pre-emption is at Python line granularity "
+             "inside dask/tokenize.py only (C code such as pickle/hashing is atomic).",
+        ref="DESIGN.md §4 C12"),
 }
 
 NA = {
